@@ -383,6 +383,15 @@ func (g *gen) journal() {
 	name := names[g.r.Intn(len(names))]
 	slot := uint64(g.r.Intn(4))
 	ty := uint64(10 + g.r.Intn(2))
+	if g.o.JournalHeavy && g.r.Intn(4) == 0 {
+		// a call that executes nothing (zero value, no such account, or the empty account) right before journaling:
+		// the call in progress is still this frame's
+		target := g.u.Empty
+		if g.r.Bool() {
+			target = common.BytesToAddress(g.r.Bytes(20))
+		}
+		b.Push(0).Push(0).Push(0).Push(0).Push(0).PushAddr(target).Push(uint64(g.r.Intn(5000))).Op(asm.CALL).Op(asm.POP)
+	}
 	b.Push(uint64(len(name))).Push(0x300).Op(asm.MSTORE)
 	b.MstoreBytes(0x320, name)
 	if g.r.Bool() { // value typed
@@ -540,7 +549,7 @@ func (g *gen) create() {
 	f := g.o.Fork
 	// init code: optionally SSTORE, then return a short runtime code / revert / invalid
 	ib := asm.New()
-	switch g.r.Intn(6) {
+	switch g.r.Intn(7) {
 	case 0:
 		ib.Op(asm.INVALID)
 	case 1:
@@ -553,6 +562,10 @@ func (g *gen) create() {
 		ib.Push(1).Push(0).Op(asm.SSTORE).Op(asm.STOP)
 	case 3: // returns code starting with 0xEF
 		ib.Push(0xef).Push(0).Op(asm.MSTORE8).Push(1).Push(0).Op(asm.RETURN)
+	case 4: // has effects (storage, a log), then returns more code than the remaining gas can pay the deposit for
+		ib.Push(0x42).Push(0).Op(asm.SSTORE)
+		ib.Push(0).Push(0).Op(0xa0)
+		ib.Push(uint64(16000 + g.r.Intn(8000))).Push(0).Op(asm.RETURN)
 	default:
 		rt := []byte{0x60, byte(g.r.Intn(256)), 0x60, 0x00, 0x55, 0x00} // PUSH1 x PUSH1 0 SSTORE STOP
 		ib.MstoreBytes(0, rt).Push(uint64(len(rt))).Push(0).Op(asm.RETURN)
